@@ -234,6 +234,38 @@ func RunProperty(repo, verifDir, prop, tier string, seed int) int {
 	units := p.closeOverContracts(cfg, specs)
 	obls, order := mergeObls(units)
 
+	// canaries: the must-fail lemmas (T_mustfail*) of the contract files are
+	// run on every check; an engine that "proves" one of them is unsound and
+	// nothing it reports may be believed
+	var canarySpecs []UnitSpec
+	for path, sf := range p.Specs {
+		sp := p.ByPath[path]
+		if sp == nil {
+			continue
+		}
+		for _, lm := range sf.Lemmas {
+			if strings.HasPrefix(lm.Name, "T_mustfail") {
+				if fn := sp.Func(lm.Func); fn != nil {
+					canarySpecs = append(canarySpecs, UnitSpec{Fn: fn, Opt: Options{}, Why: "canary", Kind: "lemma"})
+				}
+			}
+		}
+	}
+	canariesOK := 0
+	for _, r := range RunUnits(p, canarySpecs, cfg) {
+		failedOne := false
+		for _, o := range r.Obls {
+			if o.Kind == "lemma" && o.Status != "proved" {
+				failedOne = true
+			}
+		}
+		if failedOne {
+			canariesOK++
+		} else {
+			faults = append(faults, "must-fail canary "+r.Name+" was proved: the engine is unsound")
+		}
+	}
+
 	// portfolio pass over everything not proved by the incremental solver
 	solverCount := map[string]int{}
 	var solverTime float64
@@ -454,6 +486,7 @@ func RunProperty(repo, verifDir, prop, tier string, seed int) int {
 			"source_digest":            SourceDigest(repo),
 			"faults":                   faults,
 			"lemmas_run_in_thorough_tier_only": thoroughOnly,
+			"must_fail_canaries_failed_as_expected": canariesOK,
 		},
 		Assumptions: as,
 		WallS:       round3(time.Since(t0).Seconds()),
